@@ -17,7 +17,7 @@ from tools import vlib
 
 PROPS_VO = "theories/Props/C42.vo"
 THEOREMS = ["C42_enemy_merge_oracle_independent_partial", "C42_enemy_merge_closed_form",
-            "C42_partition_model_oracle_independent"]
+            "C42_partition_model_oracle_independent", "C42_model_output_function_of_input"]
 CRATE, GROUP, BIN = "h_partition", "dfir", "h_partition"
 NPROC = 3
 
